@@ -114,6 +114,13 @@ def make_spec(case):
                            maxfev=(20, 120))
         if not spec.get("faults"):
             spec["faults"] = gen.fault_plan(rng, spec) or []
+        if rng.random() < 0.06:
+            # an initial radius at the far end of the floating-point range:
+            # the interpolation system overflows (documented outcome: a
+            # result with status -2, never an escaping exception)
+            spec["options"]["radius_init"] = float(10.0 ** rng.uniform(60, 150))
+            spec["options"].pop("radius_final", None)
+            spec["faults"] = [] if rng.random() < 0.5 else spec["faults"]
         return spec
     if fam == "nanmix":
         # short runs in which NO evaluation may be fully defined: the
